@@ -282,6 +282,9 @@ pub struct GenParams {
     pub small_cfg: bool,
     /// probability (0..100) that the first parent of a client's chain is non-nil
     pub nonnil_base_pct: u32,
+    /// per-mille of payloads that are large (0.2-0.6 MB): beyond the default limits of
+    /// off-the-shelf body extractors and well into SQLite overflow chains
+    pub big_permille: u32,
 }
 
 impl Default for GenParams {
@@ -296,8 +299,20 @@ impl Default for GenParams {
             w: [45, 15, 22, 8, 5, 5],
             small_cfg: true,
             nonnil_base_pct: 30,
+            big_permille: 0,
         }
     }
+}
+
+pub fn bytes_spec_big(max_len: u32, big_permille: u32) -> BoxedStrategy<BytesSpec> {
+    if big_permille == 0 {
+        return bytes_spec(max_len).boxed();
+    }
+    prop_oneof![
+        1000 - big_permille.min(999) => bytes_spec(max_len),
+        big_permille.min(999) => (200_000u32..600_000, 0u8..N_CLASSES, 0u32..0xFFFF).prop_map(|(len, class, seed)| BytesSpec { len, class, seed }),
+    ]
+    .boxed()
 }
 
 pub fn bytes_spec(max_len: u32) -> impl Strategy<Value = BytesSpec> {
@@ -357,13 +372,13 @@ pub fn op(n: u8, p: &GenParams) -> BoxedStrategy<Op> {
     let p4 = p.clone();
     prop_oneof![
         p.w[0] => client_idx(n).prop_flat_map(move |c| {
-            (Just(c), idref(c, n, &p2, p2.av_latest_pct), bytes_spec(p2.max_len))
+            (Just(c), idref(c, n, &p2, p2.av_latest_pct), bytes_spec_big(p2.max_len, p2.big_permille))
         }).prop_map(|(c, parent, data)| Op::AddVersion { c, parent, data }),
         p.w[1] => client_idx(n).prop_flat_map(move |c| {
             (Just(c), idref(c, n, &p3, 25))
         }).prop_map(|(c, parent)| Op::GetChild { c, parent }),
         p.w[2] => client_idx(n).prop_flat_map(move |c| {
-            (Just(c), idref(c, n, &p4, 30), bytes_spec(p4.max_len))
+            (Just(c), idref(c, n, &p4, 30), bytes_spec_big(p4.max_len, p4.big_permille))
         }).prop_map(|(c, version, data)| Op::AddSnapshot { c, version, data }),
         p.w[3] => client_idx(n).prop_map(|c| Op::GetSnapshot { c }),
         p.w[4] => Just(Op::Reopen),
